@@ -535,7 +535,8 @@ func c13concBody() {
 //
 // alphabet  from enabled(T=8) to: disabled | no compression section at all | enabled(T=1024) | strategy change only
 // oracle    the write and the read get their replies, the value read back is the value written, what the node
-//           stores is the original or a valid shorter frame, nothing panics
+//
+//	stores is the original or a valid shorter frame, nothing panics
 func c13switchConcurrentBody() {
 	cl := cluster.New(1, 0, 1)
 	s := vfStartStack(cl, vfSvcConfig(0, c13cps(true, 8), 0))
